@@ -60,6 +60,7 @@ class Run:
         self.bounded_results = []
         self.difftests = []
         self.timeout = 30 if tier == "quick" else 120
+        self.sym_paths = {}
 
     # ------------------------------------------------------------------ load
     def load(self):
@@ -103,6 +104,8 @@ class Run:
                     self.engine_errors.append("%s: outside subset: %s" % (tag, exc))
                     continue
                 self._collect(paths, "contract", c.label)
+                if variant == "scalar":
+                    self.sym_paths.setdefault(c.label, []).extend(paths)
         self.trusted |= interp.trusted_used
         self.contracts_used |= interp.contracts_used
         self.dropped += interp.dropped
@@ -172,6 +175,8 @@ class Run:
             ctx.cover("raise/%s/%s" % (tag, type(pr.exc).__name__))
             return
         ctx.cover("return/%s" % tag)
+        ctx.ghost["sym_result"] = result
+        ctx.ghost["sym_pc"] = list(ctx.pc)
         envp = dict(env)
         envp.update(old)
         envp["result"] = result
